@@ -9,7 +9,7 @@ PROPERTY = "C15"
 
 
 def contracts(tier):
-    return [dict(file="c15_zip.py", timeout=90 if tier == "quick" else 400)]
+    return [dict(file="c15_zip.py", timeout=120 if tier == "quick" else 400)]
 
 
 def _completers(ctx, ins, kinds, vals, excs, split):
@@ -104,7 +104,7 @@ def scn_zip(ctx):
 
 
 ASSUMPTIONS = ["X: n symbolic in [0,22] with pre-resolved inputs (crosses the 20-element named-tuple boundary); 3 inputs with symbolic outcomes / order / duplicate; S: 3 inputs, two completer threads, optional output cancel; inputs beyond 22 are outside the claim"]
-BOUNDS_TEXT = {"quick": "X: 11 contracts (90 s each); S: P<=1", "thorough": "X: 400 s; S: P<=2"}
+BOUNDS_TEXT = {"quick": "X: 15 contracts (120 s each); S: P<=1", "thorough": "X: 400 s; S: P<=2"}
 MUST_REACH = {"*": ["positions-checked", "failure-checked"]}
 BUDGET = {"quick": 120.0, "thorough": 600.0}
 
